@@ -1,14 +1,14 @@
 // Kani harnesses for the DHCP message codec (child module of protocols::dhcp::dhcp_parsing).
 use super::*;
 
-/// C14: no byte string of length 0..=36 makes the DHCP decoder panic (message type 0 and > 7, strings
+/// C14: no byte string of length 0..=34 makes the DHCP decoder panic (message type 0 and > 7, strings
 /// that are not UTF-8, missing terminators and every truncation included).
 #[kani::proof]
-#[kani::unwind(9)]
+#[kani::unwind(7)]
 fn c14_dhcp_decoder_never_panics() {
-    let b: [u8; 36] = kani::any();
+    let b: [u8; 34] = kani::any();
     let n: usize = kani::any();
-    kani::assume(n <= 36);
+    kani::assume(n <= 34);
     match DhcpMessage::from_bytes(b[..n].iter().cloned()) {
         Ok(m) => { assert!(n >= 32); kani::cover!(m.server_name.len() == 2); core::mem::forget(m); }
         Err(e) => {
